@@ -371,8 +371,10 @@ class StringCodec(Codec):
             raise EncodeError("String codec only supports strings")
         if subtypes != ():
             raise EncodeError("string should have no subtypes")
-        Uint64Codec.encode(out, len(val))
-        out.write(val.encode())
+        # The length prefix counts the encoded UTF-8 bytes, not characters.
+        raw = val.encode("utf-8")
+        Uint64Codec.encode(out, len(raw))
+        out.write(raw)
 
 
 class BoolCodec(Codec):
